@@ -283,15 +283,14 @@ class Fn:
         return "(%s)" % ", ".join([v] + [s.sub.get(o, o) for o in s.outs])
 
     def do_return(s, v):
-        w = s.wrap_ret(v)
-        if s.ret_mode == "fn":
-            return Ret(w)
-        return Ret(s.maybe_ret(w))
+        return s.return_raw(s.wrap_ret(v))
 
     def return_raw(s, w):
         """return an already wrapped value from the enclosing construct"""
         if s.ret_mode == "fn":
             return Ret(w)
+        if s.ret_mode == "pre":              # prefix of an async fn: inl = returned before the await, inr = the awaited future
+            return Ret("inl %s" % paren(w))
         return Ret(s.maybe_ret(w))
 
     # the "maybe returned" sum: Some r / None when no in/out variable is live, inl r / inr vars otherwise
@@ -525,7 +524,52 @@ class Fn:
                     return Bind(b, loop, Match(b, [("Some %s" % v, s.return_raw(v)), ("None", krest())]))
                 return s.expr(it["hi"], K(with_hi))
             return s.expr(it["lo"], K(with_lo))
+        # for x in <slice or iterator call>: the locals the body assigns are the loop's accumulators
+        if e["pat"]["k"] == "Ident":
+            x = e["pat"]["name"]
+            accs = s.assigned_locals(e["body"])
+            if len(accs) != 1:
+                raise Unsupported("for-each loop with %d accumulators" % len(accs))
+            acc = accs[0]
+            if s.returns(e["body"]) != "never":
+                raise Unsupported("return inside a for-each loop")
+            def with_it(a, t):
+                if t not in (("slice",), ("mslice",), ("bytes_iter",)):
+                    raise Unsupported("for-each over %s" % (t,))
+                def body():
+                    s.env[x] = "u8"
+                    s.sub.pop(x, None)
+                    s.sub.pop(acc, None)
+                    return s.seq(e["body"], 0, K(lambda _a, _t: Ret(s.sub.get(acc, acc)), cheap=True))
+                b = s.scoped(body)
+                cur = s.sub.get(acc, acc)
+                nn = s.fresh(acc)
+                loop = Op("for_each %s %s (fun %s %s =>\n      %s)" % (paren(a), paren(cur), acc, x, render(simp(b), 6)))
+                s.sub[acc] = nn
+                return Bind(nn, loop, krest())
+            return s.expr(it, K(with_it))
         raise Unsupported("for loop over " + it["k"])
+
+    def assigned_locals(s, body):
+        """locals (declared outside) that a loop body modifies: through push_str / an assignment"""
+        out = []
+        def walk(n):
+            if isinstance(n, dict):
+                if n.get("k") == "MethodCall" and n["method"] in ("push_str", "push") and n["recv"]["k"] == "Path" and len(n["recv"]["path"]) == 1:
+                    nm = n["recv"]["path"][0]
+                    if nm in s.env and nm not in out:
+                        out.append(nm)
+                if n.get("k") == "Assign" and n["l"]["k"] == "Path" and len(n["l"]["path"]) == 1:
+                    nm = n["l"]["path"][0]
+                    if nm in s.env and nm not in out:
+                        out.append(nm)
+                for v in n.values():
+                    walk(v)
+            elif isinstance(n, list):
+                for v in n:
+                    walk(v)
+        walk(body)
+        return out
 
     # ---- expressions
     def expr(s, e, k, hint=None, discard=False, stmt_fall=False):
@@ -553,6 +597,8 @@ class Fn:
         p = e["path"]
         if len(p) == 1:
             nm = p[0]
+            if nm in s.env and s.env[nm] == ("reader",):
+                return k(nm, ("reader",))
             if nm in s.env:
                 return k(s.sub.get(nm, nm), s.env[nm])
             if nm == "SIZE":
@@ -974,6 +1020,24 @@ class Fn:
             return s.args(al, lambda av: s.call_sig(sig, av, k, hint or sig.hint, discard))
         raise Unsupported("call of " + key)
 
+    post = None
+
+    def e_Await(s, e, k, hint):
+        """the single await of an async fn: everything up to here is the prefix (it ends by yielding the awaited read future),
+        the continuation is the suffix, a function of the future's result"""
+        if not s.cfg.get("async") or s.post is not None or s.ret_mode != "pre":
+            raise Unsupported("await outside the supported shape (one await, at statement level of the body / loop body)")
+        def with_fut(a, t):
+            if t != ("readfut",):
+                raise Unsupported("await of something other than AsyncReadExt::read")
+            q = s.fresh("q")
+            saved = (s.ret_mode, s.maybe_vars)
+            s.ret_mode, s.maybe_vars = "maybe", ()
+            s.post = (q, k(q, ("res", "usize", ("err", "io"))))
+            s.ret_mode, s.maybe_vars = saved
+            return Ret("inr %s" % paren(a))
+        return s.expr(e["e"], K(with_fut))
+
     def e_Struct(s, e, k, hint):
         nm = e["path"][-1]
         if nm in ("NotEnoughSpaceError",) and not e["fields"]:
@@ -1081,7 +1145,26 @@ def lib_result_map(s, a, t, al, k, hint):
     raise Unsupported("Result::map with this closure")
 
 
+def lib_push_str(s, a, t, al, k, hint):
+    base = [n for n in s.env if s.sub.get(n, n) == a and s.env[n] == ("string",)]
+    if not base:
+        raise Unsupported("push_str on a non-variable")
+    def with_arg(x, _t):
+        nn = s.fresh(base[0])
+        cur = s.sub.get(base[0], base[0])
+        s.sub[base[0]] = nn
+        return Let(nn, "%s ++ %s" % (paren(cur), paren(x)), k("tt", "unit"))
+    return s.expr(al[0], K(with_arg))
+
+
+def lib_utf8_unwrap(s, a, t, al, k, hint):
+    v = s.fresh("s")
+    return Bind(v, Op("from_utf8_unwrap_1 %s" % paren(t[1])), k(v, ("slice",)))
+
+
 LIB = {
+    ("string", "push_str"): lib_push_str,
+    ("utf8res1", "unwrap"): lib_utf8_unwrap,
     ("slice", "len"): lib_len("zlen %s"), ("mslice", "len"): lib_len("zlen %s"), ("view", "len"): lib_len("vlen %s"),
     ("memmut", "len"): lib_len("zlen %s"), ("alias", "len"): lib_alias_len,
     ("slice", "is_empty"): lib_is_empty("zlen %s"), ("mslice", "is_empty"): lib_is_empty("zlen %s"),
@@ -1109,7 +1192,35 @@ def call_io_error_new(s, al, k, hint):
     raise Unsupported("io::Error::new with a computed kind")
 
 
+def call_async_read(s, al, k, hint):
+    """tokio::io::AsyncReadExt::read(reader, dest): builds the Read future; nothing happens until it is polled"""
+    def with_args(av):
+        (r, tr), (d, td) = av
+        if tr != ("reader",) or td != ("view",):
+            raise Unsupported("AsyncReadExt::read(%s, %s)" % (tr, td))
+        return k(d, ("readfut",))
+    return s.args(al, with_args)
+
+
+def call_string_new(s, al, k, hint):
+    return k("[]", ("string",))
+
+
+def call_escape_default(s, al, k, hint):
+    return s.expr(al[0], K(lambda a, t: k("escape_default %s" % paren(a), ("bytes_iter",))))
+
+
+def call_from_utf8(s, al, k, hint):
+    """core::str::from_utf8(&[b]): only the one-byte form is modelled"""
+    a0 = al[0]
+    if a0["k"] == "Reference" and a0["e"]["k"] == "Array" and len(a0["e"]["elems"]) == 1:
+        return s.expr(a0["e"]["elems"][0], K(lambda b, _t: k("<utf8>", ("utf8res1", b))))
+    raise Unsupported("from_utf8 of something other than a one-byte array")
+
+
 CALLS = {
+    "String::new": call_string_new, "core::ascii::escape_default": call_escape_default, "core::str::from_utf8": call_from_utf8,
+    "tokio::io::AsyncReadExt::read": call_async_read,
     "core::cmp::min": call_min, "std::cmp::min": call_min,
     "std::io::Error::new": call_io_error_new, "io::Error::new": call_io_error_new,
 }
